@@ -71,6 +71,19 @@ pub fn script_strategy() -> impl Strategy<Value = Script> {
         })
 }
 
+/// Delivery scripts for the worlds with very wide combs: a commit over h heads costs O(h) braids and every batch
+/// is one transaction, so `commit after every single command` over a 1000-tooth comb is hours of work for one
+/// case (seen with VERIF_SEED=1: one case > 25 min on the file back end).  Wide combs therefore get large
+/// batches and rare commits; everything else about the script is kept.
+pub fn tame_for_wide_worlds(recipe: &[Step], mut sc: Script) -> Script {
+    let widest = recipe.iter().map(|s| if let Step::Comb(_, n, _) = s { usize::from(*n) } else { 0 }).max().unwrap_or(0);
+    if widest >= 100 {
+        sc.batch_max = sc.batch_max.max(40);
+        sc.commit_pct = sc.commit_pct.min(3);
+    }
+    sc
+}
+
 pub fn case_strategy(max_steps: usize, fin: u32, run: u32, scripts: std::ops::Range<usize>) -> impl Strategy<Value = Case> {
     (
         strategies::recipe(max_steps, fin, run),
